@@ -29,10 +29,10 @@ URI = uri()
 names = st.text(st.characters(blacklist_categories=("Cs",)), min_size=1, max_size=12).filter(lambda s: not s.startswith("\x00"))
 text_no_nul = st.text(st.characters(blacklist_categories=("Cs",)), max_size=20).filter(lambda s: not s.startswith("\x00"))
 
-# IEEE doubles in the normal range (every standard serializer carries these exactly; subnormals come back from the bjdata encoder as
-# Decimal and NaN/inf have no JSON form, so neither is generated)
+# IEEE doubles of magnitude 0 or >= 2.3e-308 (every standard serializer carries these exactly; the bjdata encoder turns anything below
+# 2.23e-308 - subnormals and the very smallest normals - into a Decimal, and NaN/inf have no JSON form, so neither is generated)
 FLOATS = st.one_of(st.sampled_from([0.1, 21.7, -0.5, 1e300, -1e-300, 3.5e38, 1.1e-38, 123456.789, 2.0 ** 53 + 2.0]),
-                   st.floats(allow_nan=False, allow_infinity=False, allow_subnormal=False))
+                   st.floats(min_value=2.3e-308, allow_nan=False, allow_infinity=False), st.floats(max_value=-2.3e-308, allow_nan=False, allow_infinity=False), st.just(0.0))
 _leaf = st.one_of(st.none(), st.booleans(), st.integers(-ID_MAX, ID_MAX), st.sampled_from([2 ** 32, -2 ** 32, 2 ** 31 - 1, ID_MAX, -ID_MAX]),
                   text_no_nul, st.binary(max_size=24), FLOATS)
 _key = st.text(st.characters(blacklist_categories=("Cs",)), min_size=1, max_size=8).filter(lambda s: not s.startswith("\x00"))
